@@ -170,6 +170,11 @@ def correspondence(ctx):
                 cases.append(("J_P2P2:lattice", "join", [Obj("P", ET((3,), list(a))), Obj("P", ET((3,), list(b)))]))
                 cases.append(("M_L2L2:lattice", "meet", [Obj("L", ET((3,), list(a))), Obj("L", ET((3,), list(b)))]))
         ctx.exhaustive = True
+    # collections with 64 and more positions (one and two collection axes) in every scenario
+    for i, sc in enumerate(jmlib.SCENARIOS):
+        for big in ([(64,), (8, 9)] if ctx.tier == "thorough" else [(64,) if i % 2 else (8, 9)]):
+            op, args = jmlib.collection_case(g, sc, degen_rate=0.0, big=big)
+            cases.append((sc + ":big", op, args))
     jmlib.check_cases(ctx, cases, "C01")
     roundtrips(ctx, ctx.budget(120, 3000))
 
